@@ -293,6 +293,20 @@ func (b *bEnv) call(n *ast.CallExpr) bVal {
 			}
 		}
 		panic(verr("spec(B): len of %s", exprString(arg(0))))
+	case "cap":
+		cv := b.Eval(arg(0))
+		if p, ok := cv.(bPtr); ok && p.obj != 0 {
+			cv = b.e.loadAt(b.state(), p)
+		}
+		if a, ok := cv.(bSlice); ok && a.cap != nil {
+			return bScalar{b.state().norm(a.cap)}
+		}
+		panic(verr("spec(B): cap of %s is not tracked", exprString(arg(0))))
+	case "samearray":
+		// two slices over the same backing array object
+		x, ok1 := b.Eval(arg(0)).(bSlice)
+		y, ok2 := b.Eval(arg(1)).(bSlice)
+		return bScalar{Bool(ok1 && ok2 && !x.nil_ && !y.nil_ && x.arr == y.arr)}
 	case "isnil":
 		known, t := false, TFalse
 		switch a := b.Eval(arg(0)).(type) {
